@@ -107,6 +107,15 @@ def run(ctx):
     a, b, c = 901, 902, 903
     add_group('cycle-2fb', decls[:1] + [('F', a, [units.var(911, 'v', ('n', b))], []), ('F', b, [units.var(912, 'v', ('n', a))], [])], 'cycle')
     add_group('cycle-3type', [('S', a, [(921, ('n', b))]), ('S', b, [(922, ('n', c))]), ('A', c, a), ('E', 930, [931], None)], 'cycle')
+    # two independent programs (no reference between them, so their analysis order follows the declaration / file order):
+    # what one declares must not be visible in the other, whichever is analysed first
+    fb, fin = 940, 941
+    p1, p2, inst, v1, v2 = 942, 943, 944, 945, 946
+    fbd = ('F', fb, [units.var(fin, 'i', 'i')], [])
+    prog1 = ('P', p1, [units.var(inst, 'v', ('n', fb)), units.var(v1, 'v', 'i')], [('c', inst, [(fin, v1)], [], []), ('a', v1, [])])
+    add_group('two-programs-valid', [fbd, prog1, ('P', p2, [units.var(v2, 'v', 'i')], [('a', v2, [])])], None)
+    add_group('two-programs-call-leak', [fbd, prog1, ('P', p2, [units.var(v2, 'v', 'i')], [('a', v2, []), ('c', inst, [], [], [])])], 'call-instance-declared-in-neighbour')
+    add_group('two-programs-var-leak', [fbd, prog1, ('P', p2, [units.var(v2, 'v', 'i')], [('a', v2, [v1])])], 'undefined-var-declared-in-neighbour')
     for _ in range(3 if ctx.quick() else 40):
         decls, ns = units.gen_valid(rng, size=rng.choice([1, 2]))
         add_group('random-valid', decls, None)
